@@ -295,7 +295,7 @@ func pruneCache(cacheDir, keep string) {
 	}
 	sort.Slice(dirs, func(i, j int) bool { return dirs[i].t.After(dirs[j].t) })
 	for i, d := range dirs {
-		if i >= 2 {
+		if i >= 6 { // several checks (and development runs) may be in flight
 			os.RemoveAll(filepath.Join(cacheDir, d.name))
 		}
 	}
